@@ -5,6 +5,10 @@ package padding
 // Contracts for govc (contract-based deductive verification; see /verif/DESIGN.md).
 // This file holds only comments and is compiled only with -tags verif.
 
+// C17's quantifier is "every exported function of this package taking []byte": the check fails for one without a
+// contract tagged C17 that has a modifies clause.
+//@ coverage exported-bytes C17
+
 //@ func PadPKCS7
 //@   tags C03 C07 C17
 //@   modifies nothing
@@ -12,6 +16,8 @@ package padding
 //@   ensures [C03.pad.ok] (size > 1 && size < 256) ==> result1 == nil
 //@   ensures [C03.pad.len] (size > 1 && size < 256) ==> len(result) == len(buf) + (size - len(buf) % size)
 //@   ensures [C03.pad.prefix] (size > 1 && size < 256) ==> (forall i :: 0 <= i && i < len(buf) ==> result[i] == old(buf[i]))
+// C17: the padded copy never shares memory with the input (so that writing to / appending to it cannot reach the caller's buffer)
+//@   ensures [C17.pad.fresh] result1 == nil ==> fresh(result)
 //@   ensures [C03.pad.bytes] (size > 1 && size < 256) ==> (forall i :: len(buf) <= i && i < len(result) ==> result[i] == size - len(buf) % size)
 
 //@ func UnpadPKCS7
@@ -19,6 +25,8 @@ package padding
 //@   modifies nothing
 //@   ensures [C03.unpad.badsize] (size <= 1 || size >= 256) ==> (result1 == ErrInvalidPKCS7BlockSize && result == nil)
 //@   ensures [C03.unpad.errs] result1 == nil || result1 == ErrInvalidPKCS7BlockSize || result1 == ErrInvalidPKCS7Padding
+// C17: whose memory the result is: nothing, new memory, or the leading part of the input itself (a read-only view)
+//@   ensures [C17.unpad.alias] result == nil || fresh(result) || (result.base == buf.base && result.off == buf.off && len(result) <= len(buf))
 //@   ensures [C03.unpad.empty] (size > 1 && size < 256 && len(buf) == 0) ==> (result1 == nil && len(result) == 0)
 //@   ensures [C03.unpad.accept] (size > 1 && size < 256 && len(buf) > 0 && result1 == nil) ==>
 //@       (len(buf) % size == 0 && 1 <= buf[len(buf)-1] && buf[len(buf)-1] <= size
